@@ -183,10 +183,19 @@ func (a *Agent) Stop() {
 	if done == nil {
 		// Not started yet: stop it as soon as it runs.
 		a.stopCh <- struct{}{}
+		a.mu.Lock()
+		done = a.doneCh
+		a.mu.Unlock()
+		if done != nil {
+			<-done
+		}
 		return
 	}
 	select {
 	case a.stopCh <- struct{}{}:
+		// Wait for the loop to wind down, so that the agent can be started
+		// again as soon as Stop returns.
+		<-done
 	case <-done:
 		// The run is already over (stopped, failed to start, or the update
 		// loop ended on an error): nothing to stop.
